@@ -856,6 +856,12 @@ class C08(Prop):
           'assignment, append, extend, insert, update, setdefault, one-pair rebind, or the constructor of the container -- '
           'then seal(False) / writes inside the received element / pop, del, clear, replacement on the receiving side: '
           'the other tree keeps contents, flags and the sym_parent / sym_path of every node; '
+          'two oracle-only exhaustive grids: a bound pg.Functor (function-based and class-based) x {unsealed, seal(), '
+          'sym_seal()} x accessor flag x 6 as_sealed stacks x 6 allow_writable_accessors stacks x {del f.a, f.a = v, '
+          'rebind(a=v), rebind(a=MISSING_VALUE)} (1728 cases), and Dict.use_value_spec with a COMPLETING spec x Dict shape '
+          '(keys missing at the root / in the nested Dict / nowhere) x {unsealed, seal(), sym_seal(), nested Dict sealed} x '
+          '6 as_sealed stacks x {direct, through the constructor of an object whose field has the spec} (132 cases): a '
+          'node treated as sealed keeps its own contents and flag, and the call is refused iff it would write to one; '
           'plus an exhaustive grid: every entry point x {node, child, '
           'grandchild} x own flag x 9 scope stacks x accessor flag, and every mutating method found by '
           'introspection of the classes\' MRO. Non-trivial: the step addresses a node that is protected '
@@ -869,6 +875,10 @@ class C08(Prop):
       '(__setstate__/__init__) are outside the model; a symbolic node that already has a parent arrives in the model '
       'as a copy of its sub-tree (trees are values there: sharing cannot be expressed, the oracle checks the links '
       'of both trees through sym_parent / sym_path instead)',
+      'pg.Functor receivers and Dict.use_value_spec are checked by the oracle only (no model, no theorem): the '
+      'expected verdict is the precedence table of C08_precedence_sealed / C08_precedence_writable applied to the '
+      'receiver; known findings F381 / F382 (del f.arg ignores the functor\'s own accessor flag / shallow seal; '
+      'fixes/C08-F381.patch) are listed in findings/C08.json',
       'constructors: T-GUARD reads `if sealed: self.seal(True)` in List.__init__ / Dict.__init__ and, for Object, either '
       'the same or the attribute Dict built with sealed=sealed (genCtorSealsDeep); the model of a constructed-sealed '
       'value is constructSealed = sealT true',
@@ -903,6 +913,8 @@ class C08(Prop):
     yield from self.thread_cases(rng, 250 if tier == 'quick' else 5000)
     yield from self.constructed_sealed_cases(rng, 300 if tier == 'quick' else 6000)
     yield from self.shared_sealed_cases(rng, 300 if tier == 'quick' else 6000)
+    yield from self.functor_cases()
+    yield from self.usespec_cases()
     yield from self.grid_cases()
     yield from self.discovered_cases()
     yield from self.shallow_seal_cases()
@@ -1480,7 +1492,166 @@ class C08(Prop):
     yield from self.generate(rng.fork(), 'quick')
 
   # -- execution --------------------------------------------------------------------------
+  # -- pg.Functor receivers (oracle only) ---------------------------------------------------
+  def functor_cases(self):
+    """Exhaustive: a bound pg.Functor (function-based / class-based) x how it is sealed (not, seal(),
+    shallow sym_seal()) x its accessor_writable flag x stacks of as_sealed / allow_writable_accessors
+    scopes x the calls `del f.a`, `f.a = v`, `f.rebind(a=v)`, `f.rebind(a=MISSING_VALUE)`."""
+    stacks = [[], [True], [False], [None], [False, True], [True, None]]
+    for kind in ('fn', 'cls'):
+      for how in ('none', 'seal', 'sym_seal'):
+        for acc in (True, False):
+          for ss in stacks:
+            for as_ in stacks:
+              for op in ('del', 'set', 'rebind', 'rebind_del'):
+                yield {'functor': kind, 'how': how, 'acc': acc, 'sealed_scopes': ss, 'acc_scopes': as_, 'op': op,
+                       'tree': None, 'steps': []}
+
+  def usespec_cases(self):
+    """Exhaustive: `Dict.use_value_spec(spec)` with a COMPLETING spec (defaults for missing keys, also of a
+    nested Dict) as an entry point: Dict shapes (keys missing at the root / only in the nested Dict / none)
+    x how it is sealed (not, seal(), shallow sym_seal(), only the nested Dict) x as_sealed stacks x applied
+    directly / by handing the Dict to the constructor of an object whose field has the spec."""
+    stacks = [[], [True], [False], [None], [False, True], [True, None]]
+    for shape in ('A', 'B', 'FULL'):
+      for how in ('none', 'seal', 'sym_seal', 'child'):
+        if how == 'child' and shape == 'A':
+          continue
+        for ss in stacks:
+          for via in ('direct', 'ctor'):
+            yield {'usespec': shape, 'how': how, 'sealed_scopes': ss, 'via': via, 'tree': None, 'steps': []}
+
+  def impl_usespec(self, case):
+    import contextlib
+    import pyglove as pg
+    def make_spec():
+      return pg.typing.Dict([('x', pg.typing.Any(default=0)), ('y', pg.typing.Any(default=5)),
+                             ('z', pg.typing.Dict([('w', pg.typing.Any(default=1))]))])
+    d = {'A': lambda: pg.Dict(x=1), 'B': lambda: pg.Dict(x=1, y=2, z=pg.Dict()),
+         'FULL': lambda: pg.Dict(x=1, y=2, z=pg.Dict(w=3))}[case['usespec']]()
+    if case['how'] == 'seal':
+      d.seal(True)
+    elif case['how'] == 'sym_seal':
+      d.sym_seal(True)
+    elif case['how'] == 'child':
+      d.z.seal(True)
+    def state():
+      """per node (root, z): own sealed flag and own direct contents (a nested Dict counts as present)"""
+      def own(n):
+        return {'sealed': n.sym_sealed, 'items': [[k, '<dict>' if isinstance(v, pg.Dict) else repr(v)] for k, v in n.sym_items()]}
+      out = {'root': own(d)}
+      z = d.sym_getattr('z', None)
+      if isinstance(z, pg.Dict):
+        out['z'] = own(z)
+      return out
+    pre = state()
+    class C08Holder(pg.Object):
+      d: make_spec()
+    with contextlib.ExitStack() as st:
+      for v in case['sealed_scopes']:
+        st.enter_context(pg.as_sealed(v))
+      try:
+        if case['via'] == 'direct':
+          d.use_value_spec(make_spec())
+        else:
+          C08Holder(d=d)
+        res = 'ok'
+      except pg.WritePermissionError:
+        res = 'perm'
+      except Exception as e:    # pylint: disable=broad-except
+        res = type(e).__name__
+    return {'model': None, 'usespec': {'res': res, 'pre': pre, 'post': state()}, 'steps': [], 'pre': None}
+
+  def oracle_usespec(self, case, out):
+    o = out['usespec']
+    ss = case['sealed_scopes']
+    by_scope = bool(ss) and ss[-1] is not None
+    def treated(node):
+      return ss[-1] if by_scope else o['pre'][node]['sealed']
+    # which nodes the completing spec would write to
+    would = {'root': case['usespec'] == 'A', 'z': case['usespec'] == 'B'}
+    what = 'Dict %s sealed by %s, as_sealed%s, use_value_spec via %s -> %s: %s -> %s' % (
+        case['usespec'], case['how'], ss, case['via'], o['res'], o['pre'], o['post'])
+    for node in o['pre']:
+      if treated(node) and o['post'].get(node) != o['pre'][node]:
+        return {'signature': 'use-value-spec-sealed-modified:' + ('scope' if by_scope else case['how']), 'what': what}
+    blocked = [n for n in o['pre'] if treated(n) and would.get(n)]
+    if blocked and o['res'] != 'perm':
+      return {'signature': 'use-value-spec-sealed-no-error:' + ('scope' if by_scope else case['how']), 'what': what}
+    if not blocked and o['res'] == 'perm':
+      return {'signature': 'use-value-spec-spurious-permission-error', 'what': what}
+    return None
+
+  def impl_functor(self, case):
+    import contextlib
+    import pyglove as pg
+    if case['functor'] == 'fn':
+      @pg.functor([('a', pg.typing.Any(default=1)), ('b', pg.typing.Any(default=2))])
+      def c08fn(a, b):
+        return a
+      f = c08fn(a=5, b=6)
+    else:
+      class C08Fun(pg.Functor):
+        a: pg.typing.Any(default=1)
+        b: pg.typing.Any(default=2)
+        def _call(self):
+          return self.a
+      f = C08Fun(a=5, b=6)
+    f.set_accessor_writable(case['acc'])
+    if case['how'] == 'seal':
+      f.seal(True)
+    elif case['how'] == 'sym_seal':
+      f.sym_seal(True)
+    def state():
+      return {'a': repr(f.sym_getattr('a', 'MISSING')), 'b': repr(f.sym_getattr('b', 'MISSING')),
+              'sealed': f.sym_sealed, 'acc': f.accessor_writable}
+    pre = state()
+    with contextlib.ExitStack() as st:
+      for v in case['sealed_scopes']:
+        st.enter_context(pg.as_sealed(v))
+      for v in case['acc_scopes']:
+        st.enter_context(pg.allow_writable_accessors(v))
+      try:
+        if case['op'] == 'del':
+          del f.a
+        elif case['op'] == 'set':
+          f.a = 9
+        elif case['op'] == 'rebind':
+          f.rebind(a=9)
+        else:
+          f.rebind(a=pg.MISSING_VALUE)
+        res = 'ok'
+      except pg.WritePermissionError:
+        res = 'perm'
+      except Exception as e:    # pylint: disable=broad-except
+        res = type(e).__name__
+    return {'model': None, 'functor': {'res': res, 'pre': pre, 'post': state()}, 'steps': [], 'pre': None}
+
+  def oracle_functor(self, case, out):
+    o = out['functor']
+    ss, as_ = case['sealed_scopes'], case['acc_scopes']
+    by_scope_s = bool(ss) and ss[-1] is not None
+    sealed = ss[-1] if by_scope_s else case['how'] != 'none'
+    by_scope_a = bool(as_) and as_[-1] is not None
+    writable = as_[-1] if by_scope_a else case['acc']
+    op = case['op']
+    what = 'functor(%s) %s, accessor_writable=%s, as_sealed%s, allow_writable_accessors%s, %s -> %s, %s -> %s' % (
+        case['functor'], case['how'], case['acc'], ss, as_, op, o['res'], o['pre'], o['post'])
+    if sealed:
+      if o['post'] != o['pre']:
+        return {'signature': 'functor-sealed-modified:%s:%s' % (op, 'scope' if by_scope_s else case['how']), 'what': what}
+      if o['res'] != 'perm':
+        return {'signature': 'functor-sealed-no-error:%s:%s' % (op, 'scope' if by_scope_s else case['how']), 'what': what}
+    elif not writable and op in ('del', 'set'):
+      if o['post'] != o['pre'] or o['res'] != 'perm':
+        return {'signature': 'functor-accessor-no-error:%s:%s' % (op, 'scope' if by_scope_a else 'flag'), 'what': what}
+    elif o['res'] == 'perm':
+      return {'signature': 'functor-spurious-permission-error:' + op, 'what': what}
+    return None
+
   def model_request(self, case):
+    if case.get('functor') or case.get('usespec'):
+      return None
     if any(s['kind'] == 'generic' for s in case['steps']):
       return None
     steps = case['steps']
@@ -1502,6 +1673,10 @@ class C08(Prop):
     import pyglove as pg
     # the harness thread starts from "no override" (see Worker._base_scopes)
     with pg.as_sealed(None), pg.allow_writable_accessors(None):
+      if case.get('functor'):
+        return self.impl_functor(case)
+      if case.get('usespec'):
+        return self.impl_usespec(case)
       return self._impl_body(case)
 
   def _impl_body(self, case):
@@ -1598,6 +1773,10 @@ class C08(Prop):
 
   # -- the property itself ------------------------------------------------------------------
   def oracle(self, case, out):
+    if case.get('functor'):
+      return self.oracle_functor(case, out)
+    if case.get('usespec'):
+      return self.oracle_usespec(case, out)
     pre = out['pre']
     want = self.model_tree(case)
     if out.get('pre_links') and (out['pre_links']['tree'] or out['pre_links']['ext']):
@@ -1786,6 +1965,8 @@ class C08(Prop):
     return None
 
   def nontrivial(self, case, out):
+    if case.get('functor') or case.get('usespec'):
+      return True
     t = case['tree']
     for s in case['steps']:
       if s['kind'] in ('seal', 'enter'):
@@ -1801,6 +1982,12 @@ class C08(Prop):
     return False
 
   def describe(self, case, out):
+    if case.get('functor'):
+      return ['functor:' + case['functor'], 'functor-sealed-by:' + case['how'], 'functor-op:' + case['op'],
+              'functor-result:' + out['functor']['res']]
+    if case.get('usespec'):
+      return ['use_value_spec:' + case['usespec'], 'use_value_spec-sealed-by:' + case['how'], 'use_value_spec-via:' + case['via'],
+              'use_value_spec-result:' + out['usespec']['res']]
     h = ['steps:%d' % len(case['steps'])]
     if case.get('flag_history'):
       h.append('flag-history')
@@ -1844,6 +2031,8 @@ class C08(Prop):
     return h
 
   def shrink_candidates(self, case):
+    if case.get('functor') or case.get('usespec'):
+      return
     steps = case['steps']
     if case.get('threads'):
       # calls go one by one; a scope goes with its own leave (matched per thread)
